@@ -171,6 +171,8 @@ class Engine:
                 elif ev == "reset":
                     s = e.get("s", {})
                     self.cov["scenario:%s/%s" % (s.get("framing", e.get("kind", "-")), s.get("faultKind", "-"))] += 1
+                elif ev == "tls":
+                    self.cov["tls:%s/%s/%s" % (e.get("backend"), e.get("path"), e.get("res"))] += 1
                 elif ev == "happy":
                     self.cov["happy:%s/%d-addresses" % (e.get("res"), len(e.get("resolved", [])))] += 1
                 elif ev == "rt":
